@@ -6,6 +6,26 @@ ROOT = os.path.dirname(os.path.dirname(os.path.abspath(__file__)))
 TECH = "property-based testing (pgregory.net/rapid)"
 
 CLAIMED = {
+ "C03": dict(
+  text="rapid state machine over create (plain, multi-coin, incoming/outgoing cross-chain, duplicates, every timestamp/time-lock boundary) / claim (right, foreign, random, malformed secret; any sender) / blocks biased to expiry-1, expiry, expiry+1; an independent model recomputes ids and hash locks and predicts claim acceptance exactly; after every message and block the exact balance-sheet delta, the refund-event id set, contract terms and state transitions are compared, and a rejected message must leave balances and the htlc store image untouched.",
+  note="Bounded random search (<=8-12 contracts, <=130 blocks, 6 users, two cross-chain assets); asset removal/limit lowering while transfers are open is a governance precondition kept behind a switch (DESIGN §5 F11); SDK/bank/rapid trusted.",
+  technique=TECH + ": state machine vs reference model with exact balance-sheet deltas, shrinking to JSON replay",
+  ref="DESIGN.md §4 C03"),
+ "C04": dict(
+  text="The C03 machine with generated asset parameters (limits, time-limited or not, periods, fees, min/max amounts and locks, deputies) installed and later changed compatibly by the authority, and block-time steps aimed at the limit period (exactly at, 1 ns below/above); at every end-block and begin-block the escrow balance, the per-asset incoming/outgoing/current counters, bank supply, and the time-limited counter (against the model's own window accumulator) are compared, and current+incoming <= limit and window amount <= time-based limit are asserted within a parameter epoch.",
+  note="Same bounds as C03; open/completed state is read from the HTLC query, amounts and directions from the model; SDK/bank/rapid trusted.",
+  technique=TECH + ": state machine vs reference model, invariants at every block boundary, shrinking to JSON replay",
+  ref="DESIGN.md §4 C04"),
+ "C09": dict(
+  text="rapid state machine over issue / edit / mint / burn / transfer-owner (v1 and legacy messages) by owners, former owners, strangers and poor accounts, symbols and min units from overlapping pools so that collisions happen, scales 0..18, amounts placed at the cap, one over it and in fractions of a main unit, parameter changes by the authority; a math/big model predicts acceptance and the exact balance-sheet delta including the fee split, and checks identity uniqueness, owner index, supply <= cap after every step, burned tally and an empty module account.",
+  note="Bounded random search (<=40-80 ops, 6 users, 8-word symbol pools); the fee factor is re-evaluated with float64 like the code (no symbol length lies near a rounding boundary, asserted at run time); ante handlers are not run; SDK/bank/rapid trusted.",
+  technique=TECH + ": state machine vs reference model with exact balance-sheet deltas, shrinking to JSON replay",
+  ref="DESIGN.md §4 C09"),
+ "C10": dict(
+  text="Two layers. Pure: types.LossLessSwap against big.Rat over amounts <= 2^128, scales 0..18 and positive 18-decimal ratios, with a constructive generator for the rounding boundary: 0 <= burned <= offered, minted*10^in <= burned*ratio*10^out, and exactness plus the dust bound at ratio 1. Histories: deploy / swapToERC20 / swapFromERC20 / contract-side swapToNative + hook / swapFeeToken / mint / burn / enable-disable over five tokens with a transactional in-memory EVM and injected faults (error, revert, +-1 mis-credit, silent no-op), receivers including blocked, new and malformed addresses: native supply + ERC20 supply changes only by the modelled operations, a successful conversion moves exactly the amount on both sides, a failed one leaves bank and EVM state untouched.",
+  note="The EVM is the harness's in-memory implementation of types.EVMKeeper (trusted); amounts above 2^128 are out of bounds (Int overflow = rejection); exactness only claimed at ratio 1, as the property says.",
+  technique=TECH + ": pure function vs big.Rat reference (random + constructive boundary generator) and state machine with fault injection, shrinking to JSON replay",
+  ref="DESIGN.md §4 C10"),
  "C11": dict(
   text="Generated histories of signed transactions over all ten modules run through InitChain/FinalizeBlock/Commit on several replicas of one genesis: a second run in the same process (fresh map seeds), a replica restarted (new app object over the same DB) at generated block boundaries, a replica in a second OS process, and a replica executed after a real sleep with chain time placed so that candidate host-clock thresholds are straddled. Per block the app hash, tx results and a hash of every store, and at the end the exported genesis (exported several times) must be byte-identical.",
   note="Bounded random search (<=60 blocks, <=4 txs per block, 4 funded users); one amd64 host, so cross-architecture floating point is not varied; host-clock thresholds are straddled only for candidate durations (constants next to clock reads in the sources plus a fixed grid) with 6-10 s margins; SDK/IAVL/rapid trusted.",
@@ -16,6 +36,11 @@ CLAIMED = {
   note="Bounded random search (<=60 blocks, 4 funded users, default parameters except what histories change); queue membership after import is not observable through genesis or queries and is not asserted; SDK/IAVL/rapid trusted.",
   technique=TECH + ": state machine over blocks, round-trip (export -> import -> export) and differential query oracle, shrinking to JSON replay",
   ref="DESIGN.md §4 C12"),
+ "C17": dict(
+  text="rapid state machine on top of the service flow: create/start/pause/edit feeds by creator and strangers (latest-history shrinking and growing, thresholds, provider sets), providers answer with decimal strings of either sign (0-10 fractional digits, 1e-8..1e15), error results or not at all, a poor creator whose funds run out, blocks. Every completed batch (complete_batch event) is judged with the outputs the harness itself submitted and the threshold in force when the batch was issued: exactly one new value iff the threshold was met, equal to the exact big.Rat aggregate within 0.5e-8 + (n+2)*2^-52*max|x|, stamped with the block time; after every step values are newest-first, never more than latest-history, otherwise unchanged; the feed state index mirrors the request context; strangers are rejected without effect.",
+  note="Bounded random search (<=4 feeds, 3 providers, <=120 steps); answers lacking the JSON field are outside the numeric clause; SDK/bank/rapid trusted.",
+  technique=TECH + ": state machine vs exact-rational reference model, shrinking to JSON replay",
+  ref="DESIGN.md §4 C17"),
  "C19": dict(
   text="Generated histories of record creations (byte-identical duplicates within one tx, one block and across blocks), blocks and other-module messages; after every step every id ever returned is read back and compared with what was submitted, ids are checked pairwise distinct and the raw record store is checked to only grow.",
   note="Bounded random search (history length, 3 creators, small content alphabet); SDK/bank/store and rapid trusted; no proof of absence.",
